@@ -24,6 +24,8 @@ var drvQueries = []drvQuery{
 	// with the literals in place
 	{text: `a = $1 | b = $1 ; a`, args: []string{"x"}, match: func(r drvRow) bool { return r["a"] == "x" || has(r, "b", "x") }, groupBy: []string{"a"}},
 	{text: `(a = $2 & b = $1) | a = $2 ; b, a`, args: []string{"q", "y"}, match: func(r drvRow) bool { return r["a"] == "y" }, groupBy: []string{"b", "a"}},
+	// grouping by a column that is called like the result column
+	{text: `a = "x" ; count, b`, match: isA("x"), groupBy: []string{"count", "b"}},
 	{text: `zq = "1"`, wantErr: true},
 	{text: `a = "x" ; zq`, wantErr: true},
 	{text: `a = `, wantErr: true},
